@@ -102,9 +102,16 @@ func jobs() int {
 func runCase(p core.Prop, c *core.Ctx) {
 	defer func() {
 		if r := recover(); r != nil {
-			// A panic that reaches this point escaped the driver's own guards: the
-			// drivers wrap every call into ysgo, so this is a harness problem.
-			c.Inconclusive(fmt.Sprintf("harness panic in case %d: %v\n%s", c.Idx, r, debug.Stack()))
+			// A panic that reaches this point escaped the driver's own guards. If it was raised inside ysgo
+			// (or antlr) - a call the driver did not expect to panic, such as Snapshot or a registration -
+			// the library panicked on a valid use: a violation whatever the property. Otherwise it is a
+			// harness problem.
+			stack := string(debug.Stack())
+			if raisedInTarget(stack) {
+				c.Violate("a call into the library panicked (outside the guards of the driver, which expected it to return)", map[string]any{"panic": fmt.Sprint(r), "stack": tail(stack, 5000)})
+				return
+			}
+			c.Inconclusive(fmt.Sprintf("harness panic in case %d: %v\n%s", c.Idx, r, stack))
 		}
 	}()
 	p.Run(c)
@@ -302,6 +309,26 @@ func runChild(bin string, p core.Prop, tier string, seed int64, ch chunk, work s
 		out.log += string(b)
 	}
 	return out
+}
+
+// raisedInTarget is true when the frame that raised the panic (the first frame after the runtime's own)
+// belongs to ysgo proper or to antlr.
+func raisedInTarget(stack string) bool {
+	lines := strings.Split(stack, "\n")
+	seenPanic := false
+	for _, l := range lines {
+		t := strings.TrimSpace(l)
+		if strings.HasPrefix(t, "panic(") {
+			seenPanic = true
+			continue
+		}
+		if !seenPanic || strings.HasPrefix(t, "/") || t == "" || strings.HasPrefix(t, "runtime.") || strings.HasPrefix(t, "goroutine ") {
+			continue
+		}
+		// the first function line after panic( that is not the runtime's
+		return strings.Contains(t, "antlr4-go/antlr") || strings.Contains(t, "github.com/remieven/ysgo") && !strings.Contains(t, "verifharness")
+	}
+	return false
 }
 
 func mentionsTarget(log string) bool {
